@@ -780,7 +780,7 @@ func runCheck(id, tier string) int {
 							RunSeed: d.Seed, Scen: d.Scen, Dyn: d.Dyn, TreeFP: binfo.Fingerprint, Engine: "vsim-1", Harness: br.harness, Schedule: []string{tail(br.stderr, 4000)}}
 						tmp := filepath.Join(scratch, "cpuloop-in.json")
 						writeJSON(tmp, rf)
-						if _, code, _ := replayOnceEnv(filepath.Join(dir, br.harness+".test"), p, tmp, scratch, map[string]string{"VSIM_WATCHDOG_S": "12"}); code == 3 {
+						if _, code, _ := replayOnceEnv(filepath.Join(dir, br.harness+".test"), p, tmp, scratch, map[string]string{"VSIM_WATCHDOG_S": "30"}); code == 3 {
 							path := filepath.Join(verifDir, "replays", fmt.Sprintf("%s-%d-cpuloop-%s.json", id, seed, shortHash(fmt.Sprint(d.Scen))))
 							os.MkdirAll(filepath.Dir(path), 0o755)
 							writeJSON(path, rf)
@@ -1319,7 +1319,7 @@ func replayCmd(path string) int {
 		return 0
 	}
 	if strings.HasSuffix(rf.Class, "/cpu-loop") {
-		if _, code, _ := replayOnceEnv(filepath.Join(dir, rf.Harness+".test"), p, path, scratch, map[string]string{"VSIM_WATCHDOG_S": "12"}); code == 3 {
+		if _, code, _ := replayOnceEnv(filepath.Join(dir, rf.Harness+".test"), p, path, scratch, map[string]string{"VSIM_WATCHDOG_S": "30"}); code == 3 {
 			fmt.Printf("reproduced: %s: the run stalls without reaching a scheduling point\n", rf.Class)
 			fmt.Printf("VIOLATION property=%s replay=%s\n", rf.Property, path)
 			return 1
